@@ -357,7 +357,7 @@ pub fn get_best_move(
         moves = generate_moves(board, MoveGenerationMode::AllMoves, &zobrist_hasher);
         if let Some(b) = &best_move {
             for mov in &mut moves {
-                if mov.last_move == b.last_move {
+                if mov.last_move == b.last_move && mov.pawn_promotion == b.pawn_promotion {
                     // found the pv node
                     mov.order_heuristic = POS_INF;
                     break;
